@@ -5,6 +5,8 @@ Totality of the model functions is Lean's termination check; what is proved here
 explicitly modelled Go panic sites are reachable only through the known findings D1/D2/D12.
 -/
 import KlogV.Lemmas.Totality
+import KlogV.Lemmas.ReportTotal
+import KlogV.Lemmas.Prettify
 namespace KlogV.C06
 
 /-- Shape of the parser's result: records with one text block per record and no errors, or no
@@ -46,6 +48,34 @@ example : ∃ (u : UTab) (s : List Char) (t : Tag) (n : Nat), matchTag u s = som
 theorem total_no_panic (xs : List Int) (h : ∀ n, inRange ((xs.take n).sum) = true) (hx : ∀ x ∈ xs, inRange x = true) :
     sumRes xs = .ok xs.sum :=
   KlogV.sumRes_ok xs h hx
+
+/-! ### Evaluation and rendering complete on whatever the parser returned -/
+
+/-- Every record the parser returns carries a date of the calendar 0000-01-01 … 9999-12-31 … -/
+theorem parsed_dates_valid (t : Bytes) (rs : List Record) (bos : List BlockOut)
+    (h : parseDoc t = .records rs bos) : ∀ r ∈ rs, r.date.valid = true :=
+  KlogV.parseDoc_dates_valid t rs bos h
+
+/-- … and for such records `klog report` never fails, for every aggregation, with and without gap
+filling (the day-by-day walk from the first to the last date never leaves the calendar). -/
+theorem report_never_fails (k : PeriodKind) (fill : Bool) (rs : List Record) (hv : ∀ r ∈ rs, r.date.valid = true) :
+    (reportRows k fill rs).isSome = true :=
+  KlogV.reportRows_isSome k fill rs hv
+
+/-- `klog today` completes whenever the clock's date has a preceding day. -/
+theorem today_never_fails (today : Date) (rs : List Record) (h : (today.plusDays (-1)).isSome = true) :
+    (splitCurrentOther today rs).isSome = true :=
+  KlogV.splitCurrentOther_isSome today rs h
+
+/-- `klog json` renders whatever the parser returned — records or errors. -/
+theorem json_never_fails (u : UTab) (file : List Char) (pretty : Bool) (t : Bytes) (h : parseDoc t ≠ .panic) :
+    (toJson u file pretty (parseDoc t)).isSome = true :=
+  KlogV.toJson_isSome u file pretty (parseDoc t) (fun x hx => hx ▸ h)
+
+/-- The terminal rendering of the reported errors never fails (C10), under any styler. -/
+theorem render_errors_never_fails (t : Bytes) (es : List GErr) (st : Styler) (origin : List Char)
+    (h : parseDoc t = .errors es) : (prettyErrors st origin es).isSome = true :=
+  KlogV.prettyErrors_isSome t es st origin h
 
 /-- Witnesses of the known findings. -/
 example : Dur.parse "99999999999999999999h".toList = .panic := by decide
